@@ -357,6 +357,12 @@ func (t *Tree) stmt(ctx string, s *Scope) Node {
 	body := t.stmtBody(id.val+" "+arg, ns)
 	n := t.NewNode(id, arg, body, s)
 
+	//A keyword that is not a YANG statement must be an extension (prefix:identifier)
+	if n.Type() == NodeUnknown && !isExtensionKeyword(id.val) {
+		s, _ := n.ErrorContext()
+		panic(fmt.Errorf("%s: unknown statement '%s'", s, id.val))
+	}
+
 	//Validate cardinality, ordering, and arguemnt syntax
 	e := n.check()
 	if e != nil {
